@@ -30,5 +30,6 @@ def run(ctx):
         ctx.call(bounds_rules.presence_sets, prog, "R3")
         ctx.call(bounds_rules.default_limits, prog, "R4")
         ctx.call(bounds_rules.validation_before_update, prog, "R6")
+        ctx.call(xml_rules.setters, prog, "R4")
         ctx.call(xml_rules.inverse_maps, prog, "R7", "R7", "R7", only=("CartesianBounds", "SphericalBounds", "IndexBounds", "ColorLimits", "IntensityLimits", "PointCloud"))
     ctx.cfg = None
